@@ -193,8 +193,27 @@ def spec_from_module(mod, opaque):
     return spec
 
 
+def result_returns(mod, ref, opaque):
+    """[(js method name, symbol, expected receive-buffer (size, align))] for methods returning Option/Result records.
+    The emitted code allocates union_size + 1 bytes (is_ok is read at size - 1) with the record's alignment."""
+    from bridgegen import Res
+    out = []
+    for m in mod.methods:
+        if m.owner != opaque or m.params or not isinstance(m.ret, (Res, Opt)):
+            continue
+        arms = [m.ret.inner] if isinstance(m.ret, Opt) else [m.ret.ok, m.ret.err]
+        sizes = [ref.ty(a) for a in arms if a is not None]
+        if not sizes:
+            continue
+        al = max(a for _, a in sizes)
+        union = up(max(s_ for s_, _ in sizes), al)
+        out.append((m.name, m.abi_name(), [union + 1, al]))
+    return out
+
+
 def probe(jsdir, mod, opaque, verif_lib):
     spec = spec_from_module(mod, opaque)
+    spec["result_methods"] = [[n, sym] for n, sym, _ in result_returns(mod, Ref(mod), opaque)]
     with open(os.path.join(jsdir, "verif_spec.json"), "w") as fh:
         json.dump(spec, fh)
     with open(os.path.join(jsdir, "diplomat-wasm.mjs"), "w") as fh:
@@ -374,6 +393,11 @@ def compare(mod, ref, data, abi="legacy"):
             if not ok_any:
                 out.append((sname, "js.abi=spec: a by-value %s should be passed as a pointer to a %d-byte, %d-aligned buffer holding its repr(C) image %r; "
                                    "emitted code passes %r with buffers %r" % (sname, size, align, exp, res["args"], {k_: (v_["size"], v_["align"], v_["bytes"][:size]) for k_, v_ in imgs.items()})))
+    exp_rr = {n: e for n, _, e in result_returns(mod, ref, getattr(mod, "js_opaque", "Js"))}
+    for n, got in (data.get("result_returns") or {}).items():
+        if n in exp_rr and exp_rr[n] not in got:
+            out.append(("returns", "receive buffer of %s (a fallible/optional return) should be allocated with size %d (payload union + is_ok byte) and align %d; emitted code allocates %r"
+                        % (n, exp_rr[n][0], exp_rr[n][1], got)))
     for e in data.get("errors", []):
         out.append(("probe", "emitted code threw while probing: %s" % e))
     return out
